@@ -4,6 +4,10 @@ import json, os, subprocess
 ROOT = os.path.dirname(os.path.dirname(os.path.abspath(__file__)))
 
 CHECKS = {
+    "C16": dict(level="model_checking", design="DESIGN.md section 5 C16",
+                technique="TLC model checking of the column machine (Print.tla) + TLC validation of recorded PRINT histories (bytes on screen, printer, two files)",
+                text="D: over all histories of two PRINT statements built from an alphabet of items (numbers, empty/short/13-14-15-character strings, a string with an embedded CR) and separators in every position on three devices, TLC checks that the column equals the characters since the last break on that device, that a comma lands on a multiple of 14, that a statement without trailing separator ends the line and that other devices are untouched. V: the real interpreter prints item lists (numbers of every type and sign, strings incl. embedded CR/LF, leading/trailing/consecutive separators) to the screen, LPT1 and two files, alone, after pending statements on the same/another device and in random histories; PRINT USING with all formats up to length 3 (5) over {# , . \\ blank ! x}; TLC runs Print.tla on each recorded history (column invariant in every state) and compares the bytes of all four devices.",
+                note="Trusted: renderer, byte normalisation (each CR LF / lone CR / lone LF = one break token), TLC. PRINT USING judged only for unambiguous formats (comma/point with # on both sides), whole numbers that fit; non-whole number rendering not covered."),
     "C10": dict(level="model_checking", design="DESIGN.md section 5 C10",
                 technique="TLC model checking that repair-by-rotation equals precedence climbing (Expr.tla) + TLC validation of the real parser's trees and literal nodes",
                 text="D: for every operator chain (all 13 binary operators up to length 3/4, unary operators in front of every operand up to length 2) TLC checks that the transcription of the parser's rotate-to-repair algorithm yields the precedence-climbing tree and keeps the operands in order. V: the REAL parser's tree for every such chain, for parenthesised spans, for class-representative chains up to 5 operators and seeded random chains up to 8 operators is compared by TLC with Prec(tokens); literal nodes for 16-bit values in decimal/&H/&O with leading zeros and sign, sampled 32-bit values, values beyond LONG and fractional literals are checked for narrowest type and exact value.",
